@@ -250,3 +250,8 @@ def perturb(c, rnd):
     else:
         c2["shrink"] = not c["shrink"]
     return c2
+
+
+# living-object histories built from the step-wise cases above (harness/living.py)
+import living  # noqa: E402
+living.install(globals())
